@@ -133,9 +133,14 @@ public:
 			dispatcher->appendListener(event, listener)
 		};
 
-		{
+		try {
 			std::unique_lock<typename DispatcherType::Mutex> lock(itemListMutex);
 			itemList.push_back(item);
+		}
+		catch(...) {
+			// The listener was added but can't be recorded, remove it, otherwise nobody removes it.
+			dispatcher->removeListener(item.event, item.handle);
+			throw;
 		}
 
 		return item.handle;
@@ -152,9 +157,14 @@ public:
 			dispatcher->prependListener(event, listener)
 		};
 		
-		{
+		try {
 			std::unique_lock<typename DispatcherType::Mutex> lock(itemListMutex);
 			itemList.push_back(item);
+		}
+		catch(...) {
+			// The listener was added but can't be recorded, remove it, otherwise nobody removes it.
+			dispatcher->removeListener(item.event, item.handle);
+			throw;
 		}
 		
 		return item.handle;
@@ -172,9 +182,14 @@ public:
 			dispatcher->insertListener(event, listener, before)
 		};
 		
-		{
+		try {
 			std::unique_lock<typename DispatcherType::Mutex> lock(itemListMutex);
 			itemList.push_back(item);
+		}
+		catch(...) {
+			// The listener was added but can't be recorded, remove it, otherwise nobody removes it.
+			dispatcher->removeListener(item.event, item.handle);
+			throw;
 		}
 		
 		return item.handle;
@@ -278,9 +293,14 @@ public:
 			callbackList->append(callback)
 		};
 
-		{
+		try {
 			std::unique_lock<typename CallbackListType::Mutex> lock(itemListMutex);
 			itemList.push_back(item);
+		}
+		catch(...) {
+			// The callback was added but can't be recorded, remove it, otherwise nobody removes it.
+			callbackList->remove(item.handle);
+			throw;
 		}
 
 		return item.handle;
@@ -295,9 +315,14 @@ public:
 			callbackList->prepend(callback)
 		};
 
-		{
+		try {
 			std::unique_lock<typename CallbackListType::Mutex> lock(itemListMutex);
 			itemList.push_back(item);
+		}
+		catch(...) {
+			// The callback was added but can't be recorded, remove it, otherwise nobody removes it.
+			callbackList->remove(item.handle);
+			throw;
 		}
 
 		return item.handle;
@@ -313,9 +338,14 @@ public:
 			callbackList->insert(callback, before)
 		};
 
-		{
+		try {
 			std::unique_lock<typename CallbackListType::Mutex> lock(itemListMutex);
 			itemList.push_back(item);
+		}
+		catch(...) {
+			// The callback was added but can't be recorded, remove it, otherwise nobody removes it.
+			callbackList->remove(item.handle);
+			throw;
 		}
 
 		return item.handle;
